@@ -148,7 +148,8 @@ class _Resp:
 class SlugsStub:
     """script: {base_url (with trailing slash): {'user': ('unreachable',) | ('status', code),
                                                  'groups': ('unreachable',) | ('status', code, body)}}
-    body: dict (the JSON document) or 'badjson'.  `phases`, when given, is a list of such scripts: phase i answers
+    body: dict (the JSON document) or 'badjson'; with 'users': {name: groups} the service answers 200 for exactly
+    those names (compared byte for byte with what the URL asks) and 404 for every other.  `phases`, when given, is a list of such scripts: phase i answers
     while frame i of the connection is being handled (a service whose answers change during a connection)."""
 
     def __init__(self, script, phases=None):
@@ -165,6 +166,12 @@ class SlugsStub:
         for base, sc in self.script.items():
             if url.startswith(base + 'users/'):
                 which = 'groups' if url.endswith('/groups') else 'user'
+                if 'users' in sc:                 # a service that knows its users by name, byte for byte
+                    asked = url[len(base + 'users/'):]
+                    asked = asked[:-len('/groups')] if which == 'groups' else asked
+                    if asked not in sc['users']:
+                        return _Resp(404, {})
+                    return _Resp(200, {'groups': sc['users'][asked]} if which == 'groups' else {})
                 o = sc[which]
                 if o[0] == 'unreachable':
                     raise ConnectionError('unreachable ' + url)
@@ -259,11 +266,17 @@ def real_parse(frame):
     return (v.major, v.minor)
 
 
-def run_connection(proxy, conn, tls_client_auth=True, auth_settings=None, slugs=None, dumps=True, max_frames=10000):
-    """Drive one connection to its end.  Returns {'frames': [...], 'end': 'closed' | 'frame-limit', 'stray_sent': n}."""
+def run_connection(proxy, conn, tls_client_auth=True, auth_settings=None, slugs=None, dumps=True, max_frames=10000,
+                   session_factory=None):
+    """Drive one connection to its end.  Returns {'frames': [...], 'end': 'closed' | 'frame-limit', 'stray_sent': n}.
+    session_factory(proxy, conn, address) -> KmipSession, when given, supplies the session (e.g. the one a real KmipServer
+    creates in _setup_connection_handler) instead of the one built here from tls_client_auth / auth_settings."""
     engine_mod.time = proxy.eng.clock
-    s = session_mod.KmipSession(proxy, conn, ('192.0.2.7', 5696), name='verif',
-                                enable_tls_client_auth=tls_client_auth, auth_settings=auth_settings)
+    if session_factory is not None:
+        s = session_factory(proxy, conn, ('192.0.2.7', 5696))
+    else:
+        s = session_mod.KmipSession(proxy, conn, ('192.0.2.7', 5696), name='verif',
+                                    enable_tls_client_auth=tls_client_auth, auth_settings=auth_settings)
     s._logger.setLevel(logging.CRITICAL + 1)
     frames = []
     cur = {}
@@ -329,7 +342,7 @@ def default_spec(stream, sizes=None, cert=GOOD_CERT, tls=True, plugins=(), ts=16
             'cert': cert, 'tls': tls, 'plugins': list(plugins), 'ts': ts}
 
 
-def run_spec(proxy, spec, dumps=True, settings_from=None, tls_from=None):
+def run_spec(proxy, spec, dumps=True, settings_from=None, tls_from=None, session_factory=None):
     """Run one scripted connection against the real session; returns (obs, conn)."""
     cert = make_cert(list(spec['cert'][0]), spec['cert'][1], spec['cert'][2] if len(spec['cert']) > 2 else None) if spec['cert'] is not None else None
     conn = FakeConn(spec['stream'], spec['sizes'], cert, hold=spec.get('hold'))
@@ -348,6 +361,8 @@ def run_spec(proxy, spec, dumps=True, settings_from=None, tls_from=None):
             for i, sc in enumerate(scripts):
                 u, g = (p['phases'][min(i, len(p['phases']) - 1)] if p.get('phases') else (p['user'], p['groups']))
                 sc[base] = {'user': u, 'groups': g}
+                if p.get('users') is not None:
+                    sc[base]['users'] = p['users']
     script = scripts[0]
     if settings_from is not None:          # e.g. the list KmipServerConfig produced from a configuration file
         settings = settings_from(settings)
@@ -355,7 +370,8 @@ def run_spec(proxy, spec, dumps=True, settings_from=None, tls_from=None):
     stub = SlugsStub(script, phases=scripts if nph else None)
     # spec['tls'] is what the configuration MEANS; tls_from (if given) yields what the loaded server settings hand over
     tls = spec['tls'] if tls_from is None else tls_from()
-    obs = run_connection(proxy, conn, tls_client_auth=tls, auth_settings=settings, slugs=stub, dumps=dumps)
+    obs = run_connection(proxy, conn, tls_client_auth=tls, auth_settings=settings, slugs=stub, dumps=dumps,
+                         session_factory=session_factory)
     obs['recv_sizes'] = list(conn.recv_sizes)
     obs['slugs_calls'] = list(stub.calls)
     obs['parse'] = [real_parse(f['frame']) if f['frame'] is not None else None for f in obs['frames']]
